@@ -2,10 +2,10 @@ package symex
 
 import (
 	"fmt"
-	"strconv"
 	"go/constant"
 	"go/token"
 	"go/types"
+	"strconv"
 	"strings"
 
 	"golang.org/x/tools/go/ssa"
